@@ -13,11 +13,36 @@ open TTV.Reactor TTV.AsyncRun TTV.Spec.C14
 
 /-! ## what a step of the callback chain can do to the world -/
 
-/-- `Reach k w w'`: `w'` arises from `w` by updates of the runner's own state, by scheduling `k` delayed calls
-(never a `stop`) at times `≥ now`, and by firing the final Deferred (`deliver`) -/
+/-! the chain never touches the list of log observers -/
+theorem side_observers (s : Side) (c : Chain) : (Chain.side s c).observers = c.observers := by cases s <;> rfl
+theorem caught_observers (k : Exc) (c : Chain) : (Chain.caught k c).observers = c.observers := rfl
+theorem log_observers (n : SName) (t : Nat) (c : Chain) : (Chain.log n t c).observers = c.observers := rfl
+theorem finish_observers (c : Chain) : c.finish.observers = c.observers := by
+  unfold Chain.finish
+  cases c.lastExc <;> simp only [] <;> split <;> rfl
+theorem noteMain_observers (r : Option Exc) (c : Chain) : (Chain.noteMain r c).observers = c.observers := by cases r <;> rfl
+theorem noteCleanup_observers (r : Option Exc) (c : Chain) : (Chain.noteCleanup r c).observers = c.observers := by
+  cases r <;> rfl
+theorem register_observers (cs : List Stage) (c : Chain) : (Chain.register cs c).observers = c.observers := by
+  induction cs generalizing c with
+  | nil => rfl
+  | cons s rest ih => simp only [Chain.register, List.foldl_cons] at ih ⊢; rw [ih]
+
+macro "obs_tac" : tactic =>
+  `(tactic| (intro c; first
+    | rfl
+    | exact side_observers _ c
+    | exact finish_observers c
+    | exact noteMain_observers _ c
+    | exact noteCleanup_observers _ c
+    | exact register_observers _ c))
+
+/-- `Reach k w w'`: `w'` arises from `w` by updates of the runner's own state (never of the log observers), by
+scheduling `k` delayed calls (never a `stop`) at times `≥ now`, and by firing the final Deferred (`deliver`) -/
 inductive Reach : Nat → W → W → Prop
   | refl (w : W) : Reach 0 w w
-  | upd {k : Nat} {w w' : W} (f : Chain → Chain) : Reach k (updU f w) w' → Reach k w w'
+  | upd {k : Nat} {w w' : W} (f : Chain → Chain) (h : Reach k (updU f w) w')
+      (hf : ∀ c, (f c).observers = c.observers := by obs_tac) : Reach k w w'
   | sched {k : Nat} {w w' : W} (d : Nat) (a : CAct) (ha : a ≠ .stop) :
       Reach k (schedule (w.now + d) (.user 0 a) w) w' → Reach (k + 1) w w'
   | deliv {k : Nat} {w w' : W} (b : Nat) : Reach k (deliver (.value b) w) w' → Reach k w w'
@@ -25,23 +50,24 @@ inductive Reach : Nat → W → W → Prop
 theorem Reach.trans {k j : Nat} {w w1 w2 : W} (h1 : Reach k w w1) (h2 : Reach j w1 w2) : Reach (k + j) w w2 := by
   induction h1 with
   | refl w => simpa using h2
-  | upd f _ ih => exact Reach.upd f (ih h2)
+  | upd f _ hf ih => exact Reach.upd f (ih h2) hf
   | sched d a ha _ ih =>
     have := Reach.sched d a ha (ih h2)
     simpa [Nat.add_assoc, Nat.add_comm, Nat.add_left_comm] using this
   | deliv b _ ih => exact Reach.deliv b (ih h2)
 
-theorem Reach.upd1 (f : Chain → Chain) (w : W) : Reach 0 w (updU f w) := Reach.upd f (Reach.refl _)
+theorem Reach.upd1 (f : Chain → Chain) (w : W) (hf : ∀ c, (f c).observers = c.observers := by obs_tac) :
+    Reach 0 w (updU f w) := Reach.upd f (Reach.refl _) hf
 
 theorem Reach.cast {k j : Nat} {w w' : W} (h : Reach k w w') (e : k = j) : Reach j w w' := e ▸ h
 
 /-- an invariant kept by the three kinds of steps is kept along `Reach` -/
-theorem Reach.inv (P : W → Prop) (hupd : ∀ (w : W) (f : Chain → Chain), P w → P (updU f w))
+theorem Reach.inv (P : W → Prop) (hupd : ∀ (w : W) (f : Chain → Chain), (∀ c, (f c).observers = c.observers) → P w → P (updU f w))
     (hs : ∀ (w : W) (d : Nat) (a : CAct), a ≠ CAct.stop → P w → P (schedule (w.now + d) (.user 0 a) w))
     (hd : ∀ (w : W) (b : Nat), P w → P (deliver (.value b) w)) {k : Nat} {w w' : W} (h : Reach k w w') : P w → P w' := by
   induction h with
   | refl w => exact id
-  | upd f _ ih => exact fun hw => ih (hupd _ f hw)
+  | upd f _ hf ih => exact fun hw => ih (hupd _ f hf hw)
   | sched d a ha _ ih => exact fun hw => ih (hs _ d a ha hw)
   | deliv b _ ih => exact fun hw => ih (hd _ b hw)
 
@@ -468,7 +494,7 @@ theorem inv1_deliver {p : Prog} {w : W} (b : Nat) (h : Inv1 p w) : Inv1 p (deliv
     · intro _; simpa using h.cause hcr
 
 theorem inv1_reach {p : Prog} {k : Nat} {w w' : W} (hr : Reach k w w') (h : Inv1 p w) : Inv1 p w' :=
-  Reach.inv (Inv1 p) (fun _ f h => inv1_upd f h) (fun _ d a ha h => inv1_sched d a ha h)
+  Reach.inv (Inv1 p) (fun _ f _ h => inv1_upd f h) (fun _ d a ha h => inv1_sched d a ha h)
     (fun _ b h => inv1_deliver b h) hr h
 
 /-- popping the head keeps the queue part of the invariant -/
@@ -611,7 +637,7 @@ theorem inv1_spin {p : Prog} (f : W → Nat) (n : Nat) (w : W) (h : Inv1 p w) : 
 theorem reach_calls_length {k : Nat} {w w' : W} (h : Reach k w w') : w'.calls.length ≤ w.calls.length + k := by
   induction h with
   | refl w => simp
-  | upd f _ ih => simpa using ih
+  | upd f _ _ ih => simpa using ih
   | sched d a ha _ ih =>
     simp only [schedule_calls, insert_length] at ih
     omega
@@ -1676,7 +1702,7 @@ theorem reach_crashed {k : Nat} {w w' : W} (h : Reach k w w') :
     (w.crashed = true → w'.crashed = true) ∧ (w'.crashed = true → w.crashed = true ∨ w'.sp.success.isSome = true ∨ w.sp.tcall ≠ .pending) := by
   induction h with
   | refl w => exact ⟨id, Or.inl⟩
-  | upd f _ ih => exact ih
+  | upd f _ _ ih => exact ih
   | sched d a ha _ ih => exact ih
   | deliv b _ ih =>
     rename_i k w w' hr
@@ -1692,7 +1718,7 @@ theorem reach_crashed {k : Nat} {w w' : W} (h : Reach k w w') :
         intro k w1 w2 hr
         induction hr with
         | refl w => exact fun h _ => h
-        | upd f _ ih => exact ih
+        | upd f _ _ ih => exact ih
         | sched d a ha _ ih => exact ih
         | deliv b' _ ih =>
           intro h1 h2
@@ -1750,7 +1776,7 @@ theorem sinv_pop {p : Prog} {b : Nat} {w : W} (h : SInv p b w) (c : DCall (QAct 
     | stageDone r =>
       obtain ⟨k, hk, _⟩ := resume_reach p r (logEvent (.user l) { w with calls := rest })
       have : (fun w : W => w.sp.tcall ≠ .pending ∧ w.sp.success = some b) (resume p r (logEvent (.user l) { w with calls := rest })) :=
-        Reach.inv (fun w : W => w.sp.tcall ≠ .pending ∧ w.sp.success = some b) (fun _ _ h => h) (fun _ _ _ _ h => h)
+        Reach.inv (fun w : W => w.sp.tcall ≠ .pending ∧ w.sp.success = some b) (fun _ _ _ h => h) (fun _ _ _ _ h => h)
           (fun w b' h => by
             rw [deliver_of_not_pending _ _ h.1]
             exact ⟨by simpa using h.1, by simpa using h.2⟩) hk ⟨hnp, h.2⟩
